@@ -254,6 +254,7 @@ type dtagModel struct {
 	interval time.Duration
 	nextDue  time.Time
 	late     bool // interval >= 2 resolutions and registered after >= 1 decayer round in which no tag was due
+	rereg    bool // registered under a name that an earlier, closed tag had (lifecycle_test.go)
 }
 
 type peerModel struct {
@@ -353,6 +354,8 @@ type world struct {
 
 	// flags describing the step that just ran, consumed by check()
 	idleRounds   int // decayer rounds since the last one in which some tag was due
+	gate         *bumpGate       // lifecycle_test.go: the next bump function call parks the decayer loop
+	closedNames  map[string]bool // names of decaying tags closed so far
 	trimTimes    []time.Time // instants at which a regular (non-forced) trim ran or may have run
 
 	// statistics
@@ -363,7 +366,7 @@ type world struct {
 }
 
 func newWorld(cfg config, npeers int, failf func(string, ...any)) *world {
-	w := &world{failf: failf, cfg: cfg, rec: &recorder{}, pendingClosed: map[*fakeConn]bool{}, labels: map[string]bool{}}
+	w := &world{failf: failf, cfg: cfg, rec: &recorder{}, pendingClosed: map[*fakeConn]bool{}, labels: map[string]bool{}, closedNames: map[string]bool{}}
 	cm, err := connmgr.NewConnManager(cfg.low, cfg.high,
 		connmgr.WithGracePeriod(cfg.grace), connmgr.WithSilencePeriod(cfg.silence),
 		connmgr.DecayerConfig(&connmgr.DecayerCfg{Resolution: cfg.decayRes}))
@@ -507,25 +510,29 @@ func (w *world) upsertTag(pi int, tag string, name string, f func(int) int) {
 	}
 }
 
-func (w *world) registerDecaying(name string, interval time.Duration, dk, bk int) {
-	h, err := w.cm.RegisterDecayingTag(name, interval, decayFn(dk), bumpFn(bk))
+func (w *world) registerDecaying(name string, interval time.Duration, dk, bk int) *dtagModel {
+	h, err := w.cm.RegisterDecayingTag(name, interval, decayFn(dk), w.gatedBumpFn(bk))
 	w.logf("RegisterDecayingTag(%s,%v,decay=%d,bump=%d) err=%v", name, interval, dk, bk, err)
 	if err != nil {
-		return
+		return nil
 	}
 	res := w.cfg.decayRes
 	eff := h.Interval() // documented: the effective interval (raised to the resolution when shorter)
 	lastRound := w.t0.Add(time.Since(w.t0) / res * res) // decayer tick at or before now
 	d := &dtagModel{name: name, handle: h, decayKind: dk, bumpKind: bk, interval: eff, nextDue: lastRound.Add(eff),
-		late: eff >= 2*res && w.idleRounds >= 1}
+		late: eff >= 2*res && w.idleRounds >= 1, rereg: w.closedNames[name]}
 	w.dtags = append(w.dtags, d)
 	w.labels["decaying-tag"] = true
+	if d.rereg {
+		w.labels["lifecycle:registered-under-the-name-of-a-closed-tag"] = true
+	}
 	if eff >= 2*res {
 		w.labels["decaying:interval-multiple-of-resolution"] = true
 	}
 	if d.late {
 		w.labels["decaying:long-interval-registered-after-idle-rounds"] = true
 	}
+	return d
 }
 
 // decayRound mirrors one tick of the decayer at instant now: every live tag that is due is
@@ -557,6 +564,9 @@ func (w *world) decayRound(now time.Time) {
 			nv := decayOnce(d.decayKind, v)
 			if nv != v {
 				w.labels["decay-applied-by-schedule"] = true
+				if d.rereg {
+					w.labels["lifecycle:re-registered-tag-decayed-by-schedule"] = true
+				}
 			}
 			if nv == 0 {
 				delete(p.decay, d)
@@ -608,8 +618,17 @@ func (w *world) closeDecaying(d *dtagModel) {
 	if err != nil {
 		return
 	}
+	w.modelClosed(d)
+}
+
+// modelClosed: a closed tag's values no longer count for any peer.
+func (w *world) modelClosed(d *dtagModel) {
 	d.closed = true
+	w.closedNames[d.name] = true
 	for _, p := range w.peers {
+		if p.decay[d] != 0 {
+			w.labels["lifecycle:closed-tag-held-a-value"] = true
+		}
 		delete(p.decay, d)
 	}
 }
@@ -934,6 +953,7 @@ func (w *world) judge(kind trimKind, now time.Time, snaps []peerSnap, batch []cl
 	switch {
 	case len(batch) > 0:
 		w.labels["trim-closed:"+name] = true
+		w.noteLifecycleAtTrim(snaps)
 		if special {
 			w.nontrivial = true
 			w.labels["trim-closed-with-ineligible-present:"+name] = true
